@@ -13,6 +13,9 @@ CLAIMED = {
              technique='source-level symbolic execution (z3, strings as code-point vectors, If-merged per-character closure), native replay gate', ref='7/C14'),
  'C15': dict(text='Same exploration with the count oracle: after every operation get_topic_entry_count equals appended minus consumed entries, decided by z3 on every path class.',
              note=ENGINE_NOTE, technique='source-level symbolic execution (z3), native replay gate', ref='7/C15'),
+ 'C18': dict(text='Bounded symbolic model checking of the real Metadata::apply: every command sequence up to length 3-4 (quick) / 4-6 (thorough) over {create, rollover, upsert, undecodable bytes} x topics {a,b} x leaders 1..3 with sealed counts as 64-bit solver variables; after every step z3 decides the four invariants (segments 1..current with one leader each, open segment leader = topic leader, sealed (count, leader) pairs immutable, cumulative offset = sum of sealed counts) and the no-panic obligation (release semantics; the debug-profile overflow obligation is explored separately).',
+             note='Trusted: AST dump, interpreter, HashMap/RwLock models, bincode modelled as a total decode function (real bincode cannot be built offline). Replay runs the real metadata.rs compiled against two scaffolding shims (octopii trait, JSON-backed bincode). Longer sequences are outside the claim.',
+             technique='source-level symbolic execution (z3 bit-vectors), native replay through a shim harness', ref='7/C18'),
  'C25': dict(text='Bounded symbolic model checking of the real wal_key/parse_wal_key source: for every topic length 0..12 (quick) / 0..40 (thorough) of arbitrary Unicode scalar values and every u64 segment, z3 shows the round trip returns the same pair; every counterexample is replayed through the real functions before it is reported.',
              note='Trusted: the syn->JSON AST dump, the interpreter, four std string models (format!, rsplitn, strip_prefix, parse::<u64>) which are differential-tested against the real functions on every run; strings longer than the bound are outside the claim.',
              technique='source-level symbolic execution (rs2json AST + z3, strings as code-point vectors, digits as Int variables), native replay gate', ref='7/C25'),
